@@ -269,10 +269,6 @@ end Kopf.C02
 
 namespace Kopf.C02
 
-/-- No stored record of an owned handler carries a purpose other than the current reason. -/
-def NoExtras (cfg : Cfg) (P : Store) : Prop :=
-  ∀ i ∈ cfg.owned, ∀ r, P i = some r → r.purpose = none ∨ r.purpose = some cfg.reason
-
 theorem st0_purpose {cfg : Cfg} {P : Store} {now : Tick} (hsub : ∀ i ∈ cfg.selected, i ∈ cfg.owned)
     (hne : NoExtras cfg P) (i : Id) (h : HS)
     (hs : withHandlers (fromStorage P cfg.owned) cfg.selected cfg.reason now i = some h) :
